@@ -4,12 +4,13 @@
         def:i:K  src:i:K:k  ptr:i:K:k|null:off:n  fixn:i:LIST  fview:i:j:off:n
         asrc:i:k  reset:i  rptr:i:k|null:off:n  resize:i:n:v
         cc:i:j  ca:i:j  mc:i:j  ma:i:j  del:i  w:i:idx:v
+        pw:i:K:j:off:n   slot i := K(w_j.data()+off, n)      rw:i:j:off:n   w_i.reset(w_j.data()+off, n)  (j = i: self-aliasing)
         K = V (ArrayView) O (OwnedArray) F (FixedArray) W (FixedArrayView);  LIST = v,v,v or -
      D <sz> <off> <stride> <LIST bytes> <LIST indices>     DataView<T>, sizeof(T) = sz
    output, one line per case:
      H: per step "ok|skip" "|" slot0 slot1 slot2 slot3 "|" src0 src1 src2, steps joined by " ; "
         slot = "-" or K len z|p [e,e,e]  (z: data()==nullptr)   e = value, D dangling, B outside the buffer, N null
-        a wrapper all of whose elements dangle prints [stale]
+        a wrapper some element of which is not a value (dangling / outside the buffer) prints [stale]
      D: per index the sz bytes in hex, or "oob" *)
 let ios = int_of_string
 let nat s = nat_of_int (ios s)
@@ -39,13 +40,15 @@ let parse tok = match split ':' tok with
   | ["ma"; i; j] -> MoveAssign (nat i, nat j)
   | ["del"; i] -> Destroy (nat i)
   | ["w"; i; idx; v] -> Write (nat i, nat idx, n_of_int (ios v))
+  | ["pw"; i; kd; j; off; n] -> FromWrap (nat i, kind_of kd, nat j, nat off, nat n)
+  | ["rw"; i; j; off; n] -> ResetWrap (nat i, nat j, nat off, nat n)
   | _ -> failwith ("bad op " ^ tok)
 let pr_rd = function RVal v -> string_of_int (int_of_n v) | RDangling -> "D" | ROob -> "B" | RNull -> "N"
 let pr_obs = function
   | None -> "-"
   | Some o ->
     let es = o.o_elems in
-    let body = if es <> [] && List.for_all (fun e -> e = RDangling) es then "stale"
+    let body = if List.exists (function RVal _ -> false | _ -> true) es then "stale"
       else String.concat "," (List.map pr_rd es) in
     let len = ion o.o_len in
     let at_ok = (o.o_at_end = OThrow) &&
